@@ -303,9 +303,19 @@ func TestRace(t *testing.T) {
 			}
 		}
 	}()
+	crashAt := os.Getenv("VERIF_TEST_RACE_CRASH_AT") // self-test of the driver's restart logic only
 	for s := *fRaceFrom; s < *fRaceTo; s++ {
 		if *fBudget > 0 && time.Since(start).Seconds() > *fBudget {
 			break
+		}
+		if *fOut != "" && (s-*fRaceFrom)%20 == 0 {
+			// progress marker: if the Go runtime itself crashes under -race (seen rarely in
+			// runtime.(*timer).maybeRunChan inside a bubble) the driver restarts behind it
+			os.WriteFile(*fOut+".progress", []byte(fmt.Sprint(s)), 0o644)
+		}
+		if crashAt != "" && fmt.Sprint(s) == crashAt {
+			fmt.Println("SIGSEGV: segmentation violation\nPC=0x0 m=0 sigcode=1 addr=0x0\n\ngoroutine 1 [running, synctest bubble 1]:\nruntime.(*timer).maybeRunChan(0x0, 0x0)\n(simulated for the driver's self-test)")
+			os.Exit(2)
 		}
 		// a sub-test per scenario: a race report fails the sub-test only
 		t.Run(fmt.Sprintf("scenario%d", s), func(t *testing.T) {
